@@ -27,16 +27,16 @@ const c16MainN = 16
 var c16PeerLossAlpha = []int{0, 1, 2, 4, 13, 16, 17, 11, 5}
 
 type c16State struct {
-	nw        *federation.VerifNet
-	a, b, c   *federation.VerifNode
-	cJoined   bool
-	emitted   []string // messages A forwarded towards B, in order
-	emittedC  []string
-	lostSess  bool
-	down      bool
-	held      bool
-	aLostB    bool
-	nmsg      int
+	nw       *federation.VerifNet
+	a, b, c  *federation.VerifNode
+	cJoined  bool
+	emitted  []string // messages A forwarded towards B, in order
+	emittedC []string
+	lostSess bool
+	down     bool
+	held     bool
+	aLostB   bool
+	nmsg     int
 }
 
 func c16Setup() *c16State {
